@@ -21,7 +21,8 @@ MANIFEST = {
             "whitespace control on every side, trim/lstrip/keep_trailing_newline/newline_sequence/line statements) and renders "
             "each with both engines in the same process with many differently configured environments alive (so lexer/parser "
             "caches are shared as in real use); auto-indent constructs are compared with their plain form line by line; assert "
-            "and use-query chains are compared with the arm selected by a Python evaluation of the same conditions.",
+            "and use-query chains are compared with the arm selected by a Python evaluation of the same conditions."
+            " Marker expressions include values that escaping touches (plain strings, |safe markup, macro calls, Markup context values) under autoescape.",
     "note": "The differential oracle is as wide as the calibrated common core (constructs whose behaviour changed upstream between 2.11 "
             "and 3.1 are not generated: ill-typed filter operands, indent/truncate/urlize, {%+ without lstrip_blocks, async, i18n). "
             "Exception types/messages are not compared, only success vs failure.",
